@@ -16,6 +16,10 @@ preservation by every step, the monotone facts `Later`, the retry-budget potenti
 Lemmas/C06App.lean (`InvA`: where an accepted message is; `InvF`: what survives forged frames),
 Lemmas/C06Time.lean (the deadline potential `ProgT`), Lemmas/C06Forged.lean (`InvM`: accepted messages
 stay genuine when malformed lists are injected) and `namespace Aux` below.
+"The sender raises" = the flag `raised` set by the `maybe_retry` call; the section "the raise ENDS
+the loop" (`loopFrom`, `c06_raise_ends_loop`) says what the loops of the generated table do with it.
+Obligations about the SOURCE SHAPE (generated, `decide`): `c06_steady_loops_raise_ends`,
+`c06_source_monotone`, `c06_recv_only_loops`, besides the older loop-table theorems.
 -/
 import EkwVerif.Lemmas.C06App
 import EkwVerif.Lemmas.C06Time
@@ -399,7 +403,11 @@ followed by anything (`tail`), in which the destination host is never removed fr
 (`hosts.pop`, hypothesis `hpop`). Then at the end the message has been acknowledged (hence
 accepted, `c06_no_silent_loss`), or the sender has raised. The adversary may drop every frame: the
 conclusion is then "raised". Missing: continuations with `hosts.pop`
-(`c06_raises_within_budget_full_fails`). -/
+(`c06_raises_within_budget_full_fails`). "Has raised" here and in the other `raises` theorems is
+the model's flag `raised` of the `maybe_retry` CALL (the ValueError was raised by the call); that
+this ENDS the loop that made the call is `c06_raise_ends_loop` (model) / the generated column
+`raiseEnds` (no swallowing handler in the source) / the `stops` comparison of the tie (the real
+loop function). -/
 theorem c06_raises_within_budget_partial {s : Sys} (h : Reachable s) (a i : Nat) (r : Rec)
     (hlt : i < (s.ep a).idx) (hr : (s.ep a).inflight i = some r)
     (hhost : (s.ep a).hosts r.host ≠ none)
@@ -937,6 +945,35 @@ theorem c06_steady_loops_poll_finite :
     ∀ l ∈ EkwVerif.Gen.RetryLoops.loops, l.phase ≠ Phase.startup → l.timeoutMs.isSome = true := by
   decide
 
+/-- **The raise is not swallowed (generated column `raiseEnds`).** In every steady-state loop of the table no
+`except` handler between the `self.sender.maybe_retry()` call and the end of the loop swallows the ValueError:
+every handler that catches it re-raises, leaves the loop (`break` / `return` / sets the flag the `while` tests,
+`Executor.recv_loop`: ExecutorFailure + `terminate()`), or — outside the loop — runs into the method's final
+`raise` (`Bridge.recv_events`: `shutdown()` then `raise ValueError(shutdown_reason)`). This is a statement about
+the SOURCE SHAPE (AST translator `_raise_ends`); that the real loop function then really ends / raises is
+observed by the tie (`stops` of every `poll` line), not proved. -/
+theorem c06_steady_loops_raise_ends :
+    ∀ l ∈ EkwVerif.Gen.RetryLoops.loops, l.phase = Phase.steady → l.raiseEnds = true := by
+  decide
+
+/-- **The model's monotone sets are the source's (generated scan).** `Listener.acked` is only ever constructed
+empty, tested for membership and `.add`ed to; `ReliableSender.idx` is only set to 0 at construction and
+incremented by 1. `Inv.del_nodup` (at-most-once) rests on exactly this: a bounded / expiring `acked` or a wrapping
+`idx` would make it false (the source's own TODO at comms.py:111 is such a change). Source shape only; the
+long-history family of the tie (≥ 1500 messages through one Listener, delayed duplicates of the first ones)
+samples the behaviour. -/
+theorem c06_source_monotone :
+    EkwVerif.Gen.RetryLoops.listenerAckedOnlyGrows = true ∧ EkwVerif.Gen.RetryLoops.senderIdxOnlyIncrements = true := by
+  decide
+
+/-- The receive-only loops (a Listener without a ReliableSender: `DataServer.recv_loop`) poll with a finite
+timeout and, having no sender, neither feed Acks to one nor retry: what they accept is acknowledged by the
+Listener like everywhere else (all Listener-level theorems apply to them), what they send is C07's. -/
+theorem c06_recv_only_loops :
+    ∀ l ∈ EkwVerif.Gen.RetryLoops.recvOnlyLoops,
+      l.timeoutMs.isSome = true ∧ l.callsRetry = false ∧ l.feedsAck = false := by
+  decide
+
 /-- Senders driven by the steady-state loops of the table raise within the budget. PARTIAL: only
 the steady-state loops; what is missing is the shutdown loop (`c06_loop_raises_full_fails`). -/
 theorem c06_loop_raises_partial :
@@ -971,6 +1008,123 @@ theorem c06_steady_loops_deadline_partial :
     rw [hg]
     have h1 : r.remaining.toNat ≤ EkwVerif.Gen.RetryLoops.maxRetries := by rw [← hmax]; omega
     exact Nat.lt_of_le_of_lt (Nat.mul_le_mul_right _ h1) htime
+
+/-! ### the raise ENDS the loop (clause (b) at the level of the loop function) -/
+
+/-- The endpoint loop as the code runs it. Iterations of loop `l` at endpoint `a` (each: arbitrary
+steps of anybody before, a clock advance, the body, `maybe_retry` iff the row says so) are executed
+UNTIL one of them ends with the sender having raised: by the row's column `raiseEnds` (no handler
+swallows the ValueError) the loop function has then ended — `Bridge.recv_events` is on its way to
+`raise ValueError(shutdown_reason)`, `Executor.recv_loop` has reported ExecutorFailure and returned —
+and executes NOTHING more: of the remaining rounds only the steps of the others (`pre`) happen.
+The Bool is "the loop has ended". A row with `raiseEnds = false` (a swallowing handler) never stops. -/
+def loopFrom (a : Nat) (l : LoopInfo) : Bool → Sys → List (List Op × Nat × List Op) → Sys × Bool
+  | stopped, s, [] => (s, stopped)
+  | true, s, x :: xs => loopFrom a l true (run s x.1) xs
+  | false, s, x :: xs =>
+    let s' := run s (x.1 ++ [Op.tick a x.2.1] ++ iteration a l x.2.2)
+    loopFrom a l (l.raiseEnds && (s'.ep a).raised) s' xs
+
+namespace Aux
+theorem loopFrom_stopped (a : Nat) (l : LoopInfo) (xs : List (List Op × Nat × List Op)) :
+    ∀ (s : Sys), Inv s → (s.ep a).raised = true →
+      (loopFrom a l true s xs).2 = true ∧ ((loopFrom a l true s xs).1.ep a).raised = true := by
+  induction xs with
+  | nil => intro s _ hr; exact ⟨rfl, hr⟩
+  | cons x xs ih =>
+    intro s hi hr
+    simp only [loopFrom]
+    exact ih _ (run_inv hi _) ((run_later hi _).raised a hr)
+
+theorem loopOps_cons (a : Nat) (l : LoopInfo) (x : List Op × Nat × List Op) (xs : List (List Op × Nat × List Op)) :
+    loopOps a l (x :: xs) = (x.1 ++ [Op.tick a x.2.1] ++ iteration a l x.2.2) ++ loopOps a l xs := by
+  simp [loopOps]
+
+theorem loopFrom_cases (a : Nat) (l : LoopInfo) (hl : l.raiseEnds = true) (xs : List (List Op × Nat × List Op)) :
+    ∀ (s : Sys), Inv s →
+      ((loopFrom a l false s xs).2 = true ∧ ((loopFrom a l false s xs).1.ep a).raised = true) ∨
+      ((loopFrom a l false s xs).2 = false ∧ (loopFrom a l false s xs).1 = run s (loopOps a l xs) ∧
+        (xs ≠ [] → ((loopFrom a l false s xs).1.ep a).raised = false)) := by
+  induction xs with
+  | nil => intro s _; right; exact ⟨rfl, rfl, fun h => absurd rfl h⟩
+  | cons x xs ih =>
+    intro s hi
+    have hi1 : Inv (run s (x.1 ++ [Op.tick a x.2.1] ++ iteration a l x.2.2)) := run_inv hi _
+    simp only [loopFrom, hl, Bool.true_and]
+    cases hr : ((run s (x.1 ++ [Op.tick a x.2.1] ++ iteration a l x.2.2)).ep a).raised with
+    | true => left; exact loopFrom_stopped a l xs _ hi1 hr
+    | false =>
+      rcases ih _ hi1 with h | ⟨h1, h2, h3⟩
+      · left; exact h
+      · right
+        refine ⟨h1, ?_, ?_⟩
+        · rw [h2, loopOps_cons]; simp only [run_append]
+        · intro _
+          cases xs with
+          | nil => simpa [loopFrom] using hr
+          | cons y ys => exact h3 (by simp)
+end Aux
+
+/-- **A sender that gives up ENDS its loop.** For every loop whose row says `callsRetry` and
+`raiseEnds` (by `c06_retry_loops_ok_partial` and `c06_steady_loops_raise_ends`: every steady-state loop
+of the generated table): from any reachable state with message `i` of sender `a` in flight to a
+host the sender knows, run the loop as the code does (`loopFrom`: it stops at the first iteration
+that ends with the sender having raised) for at least `maxRetries` rounds, each after more than the
+resend grace, the host never removed. Then the message has been acknowledged, or the loop HAS ENDED
+with the raise (and never ran again) — there is no third outcome in which the loop goes on with the
+message undelivered. What is proved is the model's loop; that the real loop functions end / raise in
+that iteration is the `stops` comparison of the tie, that no handler swallows the ValueError is the
+generated column. -/
+theorem c06_raise_ends_loop (l : LoopInfo) (hc : l.callsRetry = true) (he : l.raiseEnds = true)
+    {s : Sys} (h : Reachable s) (a i : Nat) (r : Rec)
+    (hlt : i < (s.ep a).idx) (hr : (s.ep a).inflight i = some r) (hhost : (s.ep a).hosts r.host ≠ none)
+    (iters : List (List Op × Nat × List Op))
+    (hdt : ∀ x ∈ iters, (s.ep a).grace < x.2.1 ∧ Op.retry a ∉ x.2.2)
+    (hpop : Op.popHost a r.host ∉ loopOps a l iters) (hn : s.maxRetries ≤ iters.length) :
+    ((loopFrom a l false s iters).1.ep a).inflight i = none ∨
+      ((loopFrom a l false s iters).2 = true ∧ ((loopFrom a l false s iters).1.ep a).raised = true) := by
+  have hi := Aux.reachable_inv h
+  rcases Aux.loopFrom_cases a l he iters s hi with hstop | ⟨_, heq, hnr⟩
+  · right; exact hstop
+  · left
+    have hne : iters ≠ [] := by
+      intro h0
+      have := hi.max_pos
+      rw [h0] at hn
+      simp at hn
+      omega
+    have hfin := c06_loop_raises_within_budget l hc s h a i r hlt hr hhost iters hdt hpop hn
+    rw [← heq] at hfin
+    rcases hfin with h1 | h1
+    · exact h1
+    · rw [hnr hne] at h1; cases h1
+
+/-- over the generated table: every steady-state loop -/
+theorem c06_steady_loops_end_at_raise :
+    ∀ l ∈ EkwVerif.Gen.RetryLoops.loops, l.phase = Phase.steady →
+      ∀ (s : Sys), Reachable s → ∀ (a i : Nat) (r : Rec), i < (s.ep a).idx → (s.ep a).inflight i = some r →
+        (s.ep a).hosts r.host ≠ none → ∀ iters : List (List Op × Nat × List Op),
+          (∀ x ∈ iters, (s.ep a).grace < x.2.1 ∧ Op.retry a ∉ x.2.2) →
+          Op.popHost a r.host ∉ loopOps a l iters → s.maxRetries ≤ iters.length →
+            ((loopFrom a l false s iters).1.ep a).inflight i = none ∨
+              ((loopFrom a l false s iters).2 = true ∧ ((loopFrom a l false s iters).1.ep a).raised = true) := by
+  intro l hl hp s h a i r hlt hr hhost iters hdt hpop hn
+  exact c06_raise_ends_loop l (c06_retry_loops_ok_partial l hl hp).2 (c06_steady_loops_raise_ends l hl hp) h a i r hlt hr hhost
+    iters hdt hpop hn
+
+/-- non-vacuity, and what a swallowing handler would do: with `maxRetries = 2` and a black-holing
+network the loop with `raiseEnds` stops in its 2nd iteration after 3 transmissions and the 3rd and
+4th rounds transmit nothing more; the same loop with `raiseEnds := false` goes on: 5 transmissions,
+never stopped. -/
+example :
+    let cfg : Nat → Nat × (Nat → Option Nat) := fun a => (800, lookup (if a = 0 then [(1, 1)] else [(0, 0)]))
+    let s := run (init 2 cfg) [.send 0 1 7, .drop 0]
+    let it : List (List Op × Nat × List Op) := List.replicate 4 ([], 801, [])
+    let good : LoopInfo := { name := "L", phase := .steady, feedsAck := true, callsRetry := true }
+    let bad : LoopInfo := { good with raiseEnds := false }
+    (loopFrom 0 good false s it).2 = true ∧ ((loopFrom 0 good false s it).1.ep 0).sends 0 = 3 ∧
+    (loopFrom 0 bad false s it).2 = false ∧ ((loopFrom 0 bad false s it).1.ep 0).sends 0 = 5 := by
+  decide
 
 /-- The full statement fails: in the model of the pinned `Bridge.shutdown` loop a lost
 `ExecutorShutdown` is neither resent nor reported, however long the loop runs. Witness: one
